@@ -686,6 +686,8 @@ impl Mass for Locomotive {
     }
 
     fn expunge_mass_fields(&mut self) {
+        self.baseline_mass = None;
+        self.ballast_mass = None;
         match &mut self.loco_type {
             PowertrainType::ConventionalLoco(conv) => conv.expunge_mass_fields(),
             PowertrainType::HybridLoco(hev) => hev.expunge_mass_fields(),
